@@ -39,11 +39,11 @@ ASSUMPTIONS = [
 PROBES = ["nonempty_tables", "hashseed_varied", "dirent_varied", "heap_varied", "ws_sibling", "ws_otherfs", "ws_relative", "ws_symlink",
           "cwd_varied", "pyopt_varied", "ws_symlink_inner", "ws_named_externs", "ws_named_src", "ws_named_default", "ws_named_glob", "ws_symlink_sub", "history_other_settings",
           "history_same_project", "history_other_project", "history_crashed_run", "multi_file_project", "corpus_project",
-          "generated_project", "sub_run", "sub_semantic", "taint_phase_ran", "baseline_completed", "baseline_ended_early"]
+          "generated_project", "sub_run", "sub_semantic", "taint_phase_ran", "baseline_completed", "baseline_ended_early", "not_quiet", "taint_report_written"]
 # the same check again, smaller, in interpreters started with assertions stripped (python -O / PYTHONOPTIMIZE=1)
 ENV_VARIANTS = [{"name": "python-O", "env": {"PYTHONOPTIMIZE": "1"}, "runs": {'quick': 5, 'thorough': 60}}]
 TIERS = {
-    "quick": {"runs": 64, "budget_s": 420, "chunk": 1, "selftest": 6, "per_run_timeout": 900},
+    "quick": {"runs": 81, "budget_s": 420, "chunk": 1, "selftest": 6, "per_run_timeout": 900},
     "thorough": {"runs": 0, "budget_s": 1800, "chunk": 1, "selftest": 12, "per_run_timeout": 900},
 }
 MIN_SECONDS = 150.0
@@ -113,11 +113,14 @@ def gen_knobs(rng, tier):
         "size": rng.choice([2, 4, 6, 8]),
         "n_variants": rng.choice([2, 2, 3, 3]),
         "stock_settings": tier == "thorough" and rng.random() < 0.03,
+        # without -q the taint phase writes its report (taint/taint_data_flow.json) when it finds a flow
+        "quiet": rng.random() < 0.4,
     }
 
 
 STRATIFY = True
 WS_KINDS = ["sibling", "otherfs", "relative", "symlink", "symlink_inner", "named_externs", "named_src", "named_default", "named_glob", "symlink_sub"]
+HIST_CYCLE = [{"proj": "B"}, {"proj": "A"}, {"proj": "B"}, {"proj": "B", "crash_at": 15}, {"proj": "B", "settings": "alt"}]
 DIM_CYCLE = ["ws", "hashseed", "history", "ws", "dirent", "pyopt", "ws", "heap", "cwd"]
 
 
@@ -173,16 +176,28 @@ def generate(rng, k):
                 name = os.path.basename(p) if j == 0 or rng.random() < 0.6 else os.path.join("sub", os.path.basename(p))
                 ops.append({"op": "file", "path": name, "content": content})
     other = projgen.gen_project(rng, 1, 2)
+    first_other = sorted(other)[0]
+    other[first_other] += "\ndef tainted_entry(alpha):\n    eta = alpha\n    sink(eta)\n    return eta\ntainted_entry(1)\n"     # a taint flow
     for p in sorted(other):
         ops.append({"op": "otherfile", "path": p, "content": other[p]})
-    ops.append({"op": "lang", "lang": lang})
+    ri = k.get("run_index", 0)
+    lang_op = {"op": "lang", "lang": lang}
+    if DIM_CYCLE[ri % len(DIM_CYCLE)] == "history":
+        lang_op["quiet"] = False          # runs that vary the machine's history: with the report files of a non-quiet run
+        lang_op["sub"] = "run"            # ... of the whole pipeline, taint phase included
+    ops.append(lang_op)
     baseline = {"op": "variant", "hashseed": 0, "dirent": "natural", "heap_pad": 0, "ws": "same", "history": []}
     ops.append(baseline)
-    ri = k.get("run_index", 0)
     for j in range(k["n_variants"] - 1):
         if j == 0:
             fd = DIM_CYCLE[ri % len(DIM_CYCLE)]
-            ops.append(_gen_variant(rng, baseline, fd, WS_KINDS[(ri // 3) % len(WS_KINDS)] if fd == "ws" else None))
+            v_ = _gen_variant(rng, baseline, fd, WS_KINDS[(ri // 3) % len(WS_KINDS)] if fd == "ws" else None)
+            if fd == "history":
+                # the kinds of history in turn: another project, the same project, a crashed run, other rules in the settings
+                v_["history"] = [dict(HIST_CYCLE[(ri // len(DIM_CYCLE)) % len(HIST_CYCLE)])] + v_["history"][1:]
+                if "crash_at" in v_["history"][0]:
+                    v_["history"][0]["crash_at"] = rng.choice([3, 15, 40, 90])
+            ops.append(v_)
         else:
             ops.append(_gen_variant(rng, baseline))
     return ops
@@ -245,6 +260,10 @@ def execute(trace):
         files = [op for op in trace["ops"] if op["op"] == "file"]
         other = [op for op in trace["ops"] if op["op"] == "otherfile"]
         lang = next((op["lang"] for op in trace["ops"] if op["op"] == "lang"), "python")
+        quiet = next((op["quiet"] for op in trace["ops"] if op["op"] == "lang" and "quiet" in op), k.get("quiet", True))
+        sub_forced = next((op["sub"] for op in trace["ops"] if op["op"] == "lang" and "sub" in op), None)
+        if sub_forced and k["sub"] != sub_forced:
+            k = dict(k, sub=sub_forced)
         variants = [(i, op) for i, op in enumerate(trace["ops"]) if op["op"] == "variant"]
         if not files or len(variants) < 2:
             return {"violation": None, "probes": {}, "states": set(), "trans": set(), "steps": 0, "log": digest_hex("trivial")}
@@ -336,7 +355,7 @@ def execute(trace):
             masks.append([B, "<B>"])
 
             def spec_for(proj, crash_at=None):
-                argv = lianrun.build_argv({"sub": k["sub"], "lang": lang, "force": True, "workspace": w_arg,
+                argv = lianrun.build_argv({"sub": k["sub"], "lang": lang, "force": True, "workspace": w_arg, "quiet": quiet,
                                            "inputs": [proj], "flags": k["flags"], "stock_settings": k.get("stock_settings")}, run_settings)
                 return {"argv": argv, "cwd": cwd, "dirent": v.get("dirent", "natural"), "heap_pad": v.get("heap_pad", 0),
                         "settings": run_settings, "stock_settings": k.get("stock_settings", False), "ws": W, "mask": masks,
@@ -365,6 +384,10 @@ def execute(trace):
                 if tables:
                     hit("nonempty_tables")
                 hit("baseline_completed" if rec["status"] == "ok" else "baseline_ended_early")
+                if not quiet:
+                    hit("not_quiet")
+                if any(f.replace(os.sep, "/") == "taint/taint_data_flow.json" for f in rec["files"]):
+                    hit("taint_report_written")
                 if any(f.startswith("taint") for f in rec["files"]) or "taint" in rec.get("stdio_tail", "").lower():
                     hit("taint_phase_ran")
                 trans.add(h64(canon_json(sorted((f, d[1]) for f, d in rec["files"].items()))))
@@ -402,7 +425,9 @@ def execute(trace):
                 if a is None or b is None or a[col] != b[col]:
                     diff_files.append(f)
             outcome_diff = (rec["status"], rec["detail"]) != (base_rec["status"], base_rec["detail"])
-            stdio_diff = rec.get("stdio_sha") != base_rec.get("stdio_sha")
+            # the messages of a non-quiet run legitimately mention what was found in the workspace ("Directory created"), its
+            # files are what the property is about; quiet runs print results only
+            stdio_diff = rec.get("stdio_sha") != base_rec.get("stdio_sha") and quiet
             log.append(["variant", dims, rec["status"], rec["detail"], len(rec["files"]), len(diff_files), outcome_diff, stdio_diff])
             if diff_files or outcome_diff or stdio_diff:
                 violation = {"step": step, "cls": "diverge", "detail": {
